@@ -477,17 +477,21 @@ def run_krome_formats(tier):
         files = [([(f, byfmt[f])], "", "") for f in KROME_FORMATS]
         # the directive line itself with blanks around the column list (trailing blanks / a tab, a blank after the colon)
         files += [([(f, byfmt[f][:8])], pre_, post_) for f in KROME_FORMATS[:4] for pre_, post_ in (("", "  "), ("", "\t"), (" ", ""), (" ", " "))]
+        # ... and files whose last record has no line terminator (marked by post_ = None)
+        files += [([(f, byfmt[f][:5])], "", None) for f in KROME_FORMATS[:4]]
         files.append(([(f, byfmt[f][:6]) for f in KROME_FORMATS], "", ""))
         files.append(([(f, byfmt[f][:6]) for f in reversed(KROME_FORMATS)], "", ""))
         for blocks, pre_, post_ in files:
             text = ""
             chunk = []
             for fmt, cs in blocks:
-                text += f"@format:{pre_}{fmt}{post_}\n" + "\n".join(c[1] for c in cs) + "\n"
+                text += f"@format:{pre_}{fmt}{post_ or ''}\n" + "\n".join(c[1] for c in cs) + "\n"
                 chunk += cs
+            if post_ is None:
+                text = text.rstrip("\n")
             f = tmp / "k.krome"
             f.write_text(text)
-            label = ("+".join(b[0] for b in blocks) + (" (blanks around the column list)" if pre_ or post_ else "")) if len(blocks) == 1 else f"{len(blocks)} directives in one file"
+            label = ("+".join(b[0] for b in blocks) + (" (blanks around the column list)" if pre_ or post_ else " (no final newline)" if post_ is None else "")) if len(blocks) == 1 else f"{len(blocks)} directives in one file"
             try:
                 with quiet():
                     net = Network(filelist=str(f), fileformats="krome")
